@@ -72,7 +72,7 @@ type channel struct {
 
 func genHistory(tp *core.Tape, n int, e *core.Env) []int {
 	// Returns indices into the sealed frames, any order / multiplicity / subset.
-	mode := tp.Intn(7)
+	mode := tp.Intn(9)
 	var h []int
 	switch mode {
 	case 0: // in order with rare replays of something already delivered
@@ -179,6 +179,39 @@ func genHistory(tp *core.Tape, n int, e *core.Env) []int {
 		}
 		e.Fault("reorder")
 		e.Fault("dup")
+	case 6: // newest jumps ahead by an exact distance, then the previous newest and its neighbours are replayed
+		i := 0
+		for i < n {
+			h = append(h, i)
+			if tp.Chance(1, 4) {
+				d := []int{1, 2, 3, 62, 63, 64, 65, 66}[tp.Intn(8)]
+				if i+d < n {
+					h = append(h, i+d)
+					for _, back := range tp.Perm(3) {
+						if k := i - 1 + back; k >= 0 && k < n && tp.Chance(2, 3) {
+							h = append(h, k) // i-1, i, i+1
+						}
+					}
+					e.Fault("drop")
+					e.Fault("dup")
+					e.Probe("exact_jump_then_replay")
+					i += d
+				}
+			}
+			i++
+		}
+	case 7: // everything in order, then replays at exact distances behind the newest
+		for i := 0; i < n; i++ {
+			h = append(h, i)
+		}
+		for k, m := 0, 1+tp.Intn(12); k < m; k++ {
+			d := []int{0, 1, 2, 62, 63, 64, 65, 66, 67, tp.Intn(n)}[tp.Intn(10)]
+			if n-1-d >= 0 {
+				h = append(h, n-1-d)
+				e.Fault("dup")
+				e.Probe("replay_at_exact_distance")
+			}
+		}
 	default: // plain in order (fault free)
 		for i := 0; i < n; i++ {
 			h = append(h, i)
